@@ -139,7 +139,7 @@ func runImgSym(sc M) {
 	// (nothing learnt while verifying against one certificate may carry over to another)
 	{
 		freshV := map[string]string{}
-		for _, cn := range []string{"A", "At", "B", "Ae", "Ac"} {
+		for _, cn := range []string{"A", "At", "B", "Ae", "Ac", "Ca"} {
 			cert = certByName(cn)
 			freshV[cn] = verify("fresh/"+cn, file)
 			delete(results, "fresh/"+cn)
